@@ -148,6 +148,20 @@ def tlc(d, module, cfg, workers=1, timeout=1200, extra=None, simulate=None):
     return r
 
 
+def apalache(d, module, inv, timeout=900, init="Init", nxt="Stutter", length=0, tag="apa"):
+    """Run Apalache in d. Returns "ok" | "violated"; anything else raises Infra."""
+    out_dir = os.path.join(d, "%s-%d" % (tag, int(time.time() * 1000) % 1000000))
+    cmd = ["timeout", str(timeout), "apalache-mc", "check", "--init=" + init, "--next=" + nxt, "--inv=" + inv,
+           "--length=%d" % length, "--out-dir=" + out_dir, module + ".tla"]
+    p = subprocess.run(cmd, cwd=d, stdout=subprocess.PIPE, stderr=subprocess.STDOUT, text=True)
+    out = p.stdout
+    if "The outcome is: NoError" in out:
+        return "ok", out
+    if "The outcome is: Error" in out and "invariant" in out and "violated" in out:
+        return "violated", out
+    raise Infra("Apalache failed on %s/%s (rc %d):\n%s" % (module, inv, p.returncode, out[-3000:]))
+
+
 ERR_RE = re.compile(r'<<"LAWBROKEN", (\d+), "([^"]*)", "([^"]*)">>')
 COV_RE = re.compile(r'<<"COVERAGE", "(\{.*?\})", (\d+), "SKIPPED", (<<.*>>)>>')
 
